@@ -58,13 +58,16 @@ def _make_alg(kind, cls_name, name):
 # ---------------------------------------------------------------------------------------------
 # world
 # ---------------------------------------------------------------------------------------------
-FS_CHOICES = [10.0, 25.0, 33.3, 50.0, 64.0, 100.0, 128.0, 200.0]
+FS_CHOICES = [10.0, 12.8, 20.0, 25.0, 31.25, 33.3, 50.0, 62.5, 64.0, 100.0, 120.0, 125.0, 128.0, 200.0, 250.0, 256.0,
+              400.0, 500.0, 512.0, 1000.0, 1024.0, 2000.0, 2048.0, 4000.0, 44100.0]
 
 
 def gen_world(rng: random.Random, tier: str) -> dict:
     kind = "single" if rng.random() < 0.45 else "preger"
-    fs = rng.choice(FS_CHOICES)
+    fs = rng.choice(FS_CHOICES) if rng.random() < 0.8 else round(rng.uniform(8.0, 3000.0), rng.choice([0, 1, 2]))
     lo, hi = (150, 900)
+    if rng.random() < 0.2:
+        lo, hi = (1500, 4000)  # long records: several decimations in a row stay possible
     if kind == "single":
         nds = 1
     else:
@@ -314,6 +317,8 @@ def gen_swarm(rng, tier="quick"):
     w = {k: rng.choice([0.5, 1.0, 1.0, 2.0, 3.0]) for k in OPKINDS}
     if rng.random() < 0.3:
         w[rng.choice(OPKINDS)] = 0.0
+    if rng.random() < 0.15:
+        w["decimate"] = 6.0  # decimation-heavy histories: cumulative factors 8..125
     r = rng.random()
     nops = 1 if r < 0.05 else 2 if r < 0.25 else 3 if r < 0.55 else 4 if r < 0.8 else 5 if r < 0.93 else 6
     if tier == "thorough" and rng.random() < 0.25:
@@ -690,7 +695,11 @@ def shrink_candidates(case):
         w2["layout"] = "C"
         yield {"world": w2, "ops": ops}
     for i, n in enumerate(w["ndat"]):
-        if n > 300:
+        if n > 1200:
+            w2 = copy.deepcopy(w)
+            w2["ndat"][i] = 1200
+            yield {"world": w2, "ops": ops}
+        elif n > 300:
             w2 = copy.deepcopy(w)
             w2["ndat"][i] = 300
             yield {"world": w2, "ops": ops}
